@@ -48,7 +48,8 @@ CLAIMS['C08'] = {
              'the tree order, whose block extends past the managed range, whose frame is misaligned or whose class (0..7) is not '
              'configured returns Argument with the whole memory unchanged (check precedes every access); zone_*_below_offset; '
              'new_rejects_small/misaligned/overlap for MetaData::valid with overlap_iff (the source predicate is interval '
-             'intersection for non-empty ranges). Differential: malformed call stream + construction over carved buffers.'),
+             'intersection for non-empty ranges). Differential: malformed call stream + construction over carved buffers.'
+             ' Theorem check_matches_source: the ensure! conditions of LLFree::check are regenerated from core/src/llfree.rs on every run by the translator (Gen/Check.lean; it also checks that a failing ensure! returns Error::Argument) and their conjunction is exactly ArgsValid, the predicate the model check is proved to decide.'),
     'note': TB,
     'technique': 'Lean 4 theorems by symbolic execution of check/get/put in the sequential semantics + differential (malformed stream, buffer layouts)',
 }
